@@ -47,4 +47,28 @@ PROPS = {
              "assumption). Vec capacity and the unsafe get_unchecked calls themselves are outside the model.",
         assumptions=["position() has not wrapped around 2^64", "chunk sizes >= 1",
                      "source obeys the std::io::Read contract (lying sources are C14's subject)"]),
+    "C14": dict(
+        module="Flussab.Props.C14", engines=[("reader", 3000, 100000, "lies")], release=True,
+        claim="The index discipline every unsafe block of the reader relies on (pos_in_buf + valid_len <= buf.len, "
+              "so buf()/get_unchecked/8-byte loads stay inside the buffer) is the invariant Reader.Ok, proved to "
+              "hold after every call of the safe API for EVERY source - lying Ok(n) > slice included - and across "
+              "caught panics (op_preserves_ok, history_preserves_ok); a panicking advance is a no-op "
+              "(advance_panic_is_noop, the statement defect F14 broke); a lying read is caught before the window "
+              "changes (lying_read_leaves_window); every exposed byte was read from the source (window_was_read). "
+              "Tie: reader engine with over-long advances under catch_unwind and lying sources, debug and release.",
+        note="Proof level for the model's index arithmetic only: that the compiled unsafe code has no UB given this "
+             "discipline (machine-level memory safety) is outside Lean; the writer half (len <= cap) is claimed "
+             "under C11's model once registered. Trusted: Lean kernel, harness.",
+        assumptions=["chunk >= 1", "position() not wrapped"]),
+    "C09": dict(
+        module="Flussab.Props.C09", engines=[("reader", 4000, 150000, "")],
+        claim="Reader layer proved for all histories and schedules: exactly one non-Interrupted read per refill "
+              "(one_read_per_refill), no read when buffered data satisfies the request (no_read_if_satisfied), no "
+              "call after EOF/error (no_read_after_end, never_called_after_end), reads are demand driven "
+              "(reads_only_when_demanded: the last read was issued while the demanded byte was not buffered). "
+              "Tie: reader engine compares read-call counts after every op; oracle counts productive reads.",
+        note="The parser half (no look-ahead past the completing line) is added as theorems over the View-level "
+             "parser models in a later step of this build; until then it is carried by the format engines' "
+             "line-source oracle only. Trusted: Lean kernel, harness.",
+        assumptions=["chunk >= 1"]),
 }
